@@ -1,7 +1,7 @@
 (* C03 — property theorems only.  Each is closed by [exact <lemma>] and followed by
    Print Assumptions.  [vle cf orc sp st] is VLE.__call__ with specification [sp] on stream [st]
    for the package [cf], with every numerical solver and property model inside the record [orc]. *)
-From V Require Import Common.NumFacts C03.Model C03.Proofs.
+From V Require Import Common.NumFacts C03.Model C03.ModelVlle C03.Proofs.
 Open Scope Q_scope.
 
 (* for every oracle: the per-chemical total over all phases is unchanged, and so are the shape
@@ -48,6 +48,22 @@ Theorem C03_lle_conserve : forall islle o s s',
   forall k, nthq (l_l s') k + nthq (l_L s') k == nthq (l_l s) k + nthq (l_L s) k.
 Proof. exact lle_conserve_lemma. Qed.
 Print Assumptions C03_lle_conserve.
+
+(* ... and no liquid flow becomes negative: in the cached branch under 0 <= phi and K >= 0, in the solver branch
+   when the result lies within the bounds [0, z] handed to the optimiser (lle_hyp) *)
+Theorem C03_lle_nonneg : forall islle o s s',
+  length (l_l s) = length (l_L s) ->
+  (forall k, 0 <= nthq (l_l s) k /\ 0 <= nthq (l_L s) k) -> lle_hyp islle o s ->
+  lle_call islle o s = Ok s' -> forall k, 0 <= nthq (l_l s') k /\ 0 <= nthq (l_L s') k.
+Proof. exact lle_nonneg_lemma. Qed.
+Print Assumptions C03_lle_nonneg.
+
+(* Stream.vlle: pooling, VLE / LLE alternation on normalised data, merge and rescaling conserve every chemical
+   over the three phases, for every VLE / LLE oracle and any number of applications of f by flx.fixed_point *)
+Theorem C03_vlle_conserve : forall cf islle vo0 lo0 oss T P s s', wf3 s ->
+  vlle cf islle vo0 lo0 oss T P s = XOk s' -> wf3 s' /\ forall k, tot3 s' k == tot3 s k.
+Proof. exact vlle_conserve_lemma. Qed.
+Print Assumptions C03_vlle_conserve.
 
 (* SLE._update_solubility: only the solute moves, its total is the recorded solute amount, and the
    dissolved amount lies in [0, solute] *)
